@@ -853,7 +853,9 @@ def cross_checks(ctx, rep, direct, seed):
             # draws made inside comprehensions: in the body, in one generator, in two generators (evaluated in source order)
             "{sample(UniformInt(1, 6)) : i in 1..5}", "{rand() : i in 1..3}", "{x : x in sample(UniformInt(0, 99), 4)}",
             "{100*x + y : x in sample(UniformInt(0, 99), 4), y in sample(UniformInt(0, 99), 4)}",
-            "{a + b + c : a in sample(Bernoulli(1/2), 3), b in sample(Poisson(2), 3), c in sample(UniformInt(1, 9), 3)}", "rand()"]
+            "{a + b + c : a in sample(Bernoulli(1/2), 3), b in sample(Poisson(2), 3), c in sample(UniformInt(1, 9), 3)}", "rand()",
+            # regimes where a sampler may switch algorithm: a mean and a number of trials beyond a million, a count beyond a million
+            "sample(Poisson(1000001))", "sample(Binomial(1000001, 0.000001), 7)", "sample(Binomial(1000001, 0.999999), 3)", "size(sample(Bernoulli(1/2), 1000001))", "rand()"]
     for k in ([7, -3, 2 ** 70] if ctx["tier"] == "quick" else [7, -3, 2 ** 70, 0, 123456789, seed + 5]):
         texts = ["seed(%s)" % num_text(k)] + hist
         a, rca, ea = cross_process(texts, [], 1, ctx["rundir"])
